@@ -1,9 +1,9 @@
-import MxModel.Proofs.StructMechOps5
+import MxModel.Proofs.StructMechApi
 /-!
 # Every reachable state of the incremental mechanism satisfies `Inv`
 
 `inv_apply`: every accepted operation preserves the invariant (one lemma per constructor of `Op`,
-files `StructMechOps1` … `StructMechOps5`); `run_inv`: induction over the operation list.
+files `StructMechOps1` … `StructMechOps5`, `StructMechApi`); `run_inv`: induction over the operation list.
 -/
 namespace MxModel.SM
 
@@ -28,9 +28,9 @@ theorem inv_empty : Inv ({} : St) := by
 theorem inv_apply (kw : List String) (st st' : St) (op : Op) (h : Inv st)
     (hop : st.apply kw op = some st') : Inv st' := by
   cases op with
-  | newSpace parent name bases => exact inv_newSpace kw st st' h parent name bases hop
-  | delSpace p => exact inv_delSpace st st' h p hop
-  | newCells p name v => exact inv_newCells kw st st' h p name v hop
+  | newSpace parent name bases refs => exact inv_newSpaceRefs kw st st' h parent name bases refs hop
+  | delSpace p => exact inv_delSpaceOp st st' h p hop
+  | newCells p name fname v => exact inv_newCellsNamed kw st st' h p name fname v hop
   | setFormula p name v => exact inv_setFormula st st' h p name v hop
   | delCells p name => exact inv_delMember st st' h .cells p name hop
   | renameCells p old new => exact inv_renameCells kw st st' h p old new hop
